@@ -75,6 +75,10 @@ func main() {
 		}
 		return
 	}
+	if *dump == "writeguards" {
+		dumpWriteGuards(P)
+		return
+	}
 	if *dump == "writeredges" {
 		dumpWriterEdges(P)
 		return
